@@ -38,16 +38,17 @@ inductive Op where
   | nearMissSpacing     -- a legal two-word spelling with its blank removed, doubled or turned into a tab (`notin`, `not  in`)
   | respace             -- the same at every gap between two tokens; a blank inserted where there is none (`make_const (`)
   | nearMissWord        -- a legal word in another case, truncated, or doubled
+  | widthSweep          -- an integer type with every other width (0..140, 256, 512, leading-zero spellings), both signs
   deriving DecidableEq, Repr, Inhabited
 
 def Op.all : List Op :=
   [.badWidth, .wrongCase, .oneCharName, .unknownKeyword, .unknownAttribute, .unknownTransform, .unknownCondOp,
    .missingOperand, .missingBracket, .missingEquals, .missingFinalNewline, .dedentedMember, .emptyStruct, .wrongArity,
-   .joinLines, .joinLinesFlush, .splitLine, .nearMissSpacing, .respace, .nearMissWord]
+   .joinLines, .joinLinesFlush, .splitLine, .nearMissSpacing, .respace, .nearMissWord, .widthSweep]
 
 /-- operators whose results are not all ill-formed: the language model decides for each result -/
 def Op.arbitrated : Op → Bool
-  | .joinLines | .joinLinesFlush | .splitLine | .nearMissSpacing | .respace | .nearMissWord => true
+  | .joinLines | .joinLinesFlush | .splitLine | .nearMissSpacing | .respace | .nearMissWord | .widthSweep => true
   | _ => false
 
 def Op.name : Op → String
@@ -59,6 +60,7 @@ def Op.name : Op → String
   | .emptyStruct => "empty-struct" | .wrongArity => "wrong-arity"
   | .joinLines => "join-lines" | .joinLinesFlush => "join-lines-flush" | .splitLine => "split-line"
   | .nearMissSpacing => "near-miss-spacing" | .respace => "respace" | .nearMissWord => "near-miss-word"
+  | .widthSweep => "width-sweep"
 
 def Op.ofName (s : String) : Option Op := Op.all.find? (·.name = s)
 
@@ -109,6 +111,12 @@ def flagAttributes : List String := ["is_aligned", "is_size_implicit", "is_bitwi
 def variadicAttributes : List String := ["discriminator", "comparer"]
 
 def isOneOf (t : Chars) (names : List String) : Bool := names.any fun n => tokIs t n
+
+/-- the width texts of `width-sweep`: every width 0..140 that is not a supported one, 256, 512, and the supported widths spelled
+    with leading zeros -/
+def sweepWidths : List String :=
+  ((List.range 141).filter fun w => !(w == 8 || w == 16 || w == 32 || w == 64)).map toString ++
+    ["256", "512", "08", "016", "032", "0064", "008"]
 
 /-- the spellings of the grammar that consist of two words -/
 def twoWordSpellings : List (String × String) :=
@@ -262,6 +270,16 @@ def lineVariants (op : Op) (line : Chars) : List Chars :=
         match findSig sig ")" with
         | some b => match sig[b]? with | some (jb, _) => [replaceAt toks jb [", zz".toList, ")".toList]] | none => []
         | none => []
+  | .widthSweep =>
+    -- the sites of `bad-width`; per site both signs, per sign every text of `sweepWidths`, in this order
+    positions.flatMap fun (p, j, t) =>
+      if isOneOf t intNames &&
+          (match prevSig sig p with
+           | some q => tokIs q "=" || tokIs q ":" ||
+              (tokIs q "(" && p ≥ 2 && ((sig[p - 2]?).map fun e => isOneOf e.2 ["array", "make_const", "make_reserved", "sizeof"]).getD false)
+           | none => false)
+      then ["uint", "int"].flatMap fun sign => sweepWidths.map fun w => replaceAt toks j [(sign ++ w).toList]
+      else []
   | .nearMissSpacing =>
     -- the blank(s) between the two words of a two-word spelling: removed, two blanks, a tab
     (enumFrom 0 toks).flatMap fun (j, t) =>
